@@ -288,7 +288,9 @@ class C07(PropBase):
             "outside the stack x lookup at eip-1; (G) WHOLE x86 walk_stack from a context frame over generated stacks (1-5 activations of 1-3 "
             "functions, each with an FPO record with/without base pointer or a frame-data record with the .raSearch program, with/without FUNC "
             "record, recursion, image cut short, outermost return address below 4096): the leading call-frame-info frames are compared with "
-            "the model's win_walk and judged by a frame-by-frame reference. Non-trivial = the walk succeeded / produced a frame. distinct = distinct case lines")
+            "the model's win_walk and judged by a frame-by-frame reference; operator grid (every binary operator on every ordered pair of a 12-value pool, literal and through variables); "
+            "address-sorted record lists of one kind (2-5 records, lengths to the function end / short / overshooting, optionally a record of the other kind) probed at every boundary. "
+            "Every case is evaluated by the hand-written model, the text-route model and the model compiled from the source on this run. Non-trivial = the walk succeeded / produced a frame. distinct = distinct case lines")
     trusted_base = [
         "Coq 8.16.1 kernel (vm_compute only in Examples / witness lemmas)",
         "model C07/Model.v written by hand from walker.rs (eval_win_expr, FPO), parser.rs (record acceptance on parsed fields, insert_win_stack_info), mod.rs walk_frame; reuses C06/Model.v and C08/Model.v; tied to the code by the correspondence run AND (round 5) proved equal, function by function, to the Gallina compiled from walker.rs (c07_source_is_model)",
@@ -297,6 +299,7 @@ class C07(PropBase):
         "CfiStackWalker::from_ctx_and_args: the has_grand_callee / grand_callee_parameter_size field expressions are regenerated from minidump-unwind/src/lib.rs by translate/c07_walker_args.py (Gen/C07WalkerArgs.v; the rest of the constructor, walk_stack's grand-callee statement and the FrameWalker getters are pinned textually); the translator's small Option-chain language is trusted",
         "byte-level text route (C09/Grammar.v line parsers, hand-written from nom) proved equal to the record route for files without STACK CFI records (c07_text_route_agrees_parsed: from the lines of the file; the run-length normal form of program strings is proved as a parser invariant) and run side by side on every case; the harness's hex printing of the fields is test glue",
         "x86::get_caller_by_cfi post-processing mirrored in C06/Driver.v post_real (owned by C05); C07/Walker.v fpo_walk is walk_stack's loop restricted to FPO records (abp = false) on the abstract 32-bit walker",
+        "STACK WIN tables: C07/Proofs23.v maps a StackInfoWin to C08's (address, size, tag) record with tag = index of the first record of the file with the same remaining fields; C08/WinProofs.v (the lemmas behind c08_win_*) and C08/Tie.v + Gen/C08Tables.v (translate/c08_tables.py, owned by C08) are imported through it",
         "extraction: ExtrOcamlBasic only; ocaml/zconv.ml + ocaml/c07/main.ml glue; harness/src/bin/c07.rs + harness/src/cfi_common.rs",
     ]
     manifest = {
@@ -325,6 +328,16 @@ class C07(PropBase):
                 "program) records is walked to exactly its chain (c07_win_recovers_chain). "
                 "Whole walks through all three kinds of record in one stack: c07_win_recovers_chain_bp; through standard ebp frames: c07_ebp_recovers_chain; one step of these walks is SymbolFile::walk_frame (c07_walk_step_is_walk_frame); win_walk is compared with the real walk_stack on generated stacks (front-end G). "
                 "Only the token sequence and the presence of '@' in the program text matter: c07_program_text_dependence. "
+                "Round 5, second pass: the correspondence driver evaluates every case with the hand-written model AND with the model compiled from walker.rs / mod.rs on that run "
+                "(run_*7_src; a case on which they differ is reported), proved to be the same function of the case line (c07_driver_source_agrees); the exact extent of the known "
+                "finding F-C07a for every callee validity set: caller validity = what the record sets + W, W = ([ebp, ebx, edi, esi] valid in the callee) minus what the record sets, "
+                "values unchanged, W empty iff outside the known class (c07_forwarded_set_exact, c07_forwarded_set_exact_fpo register by register, c07_forwarded_set_formula; the oracle "
+                "reports any valid register outside that set as a fresh violation); which record walk_frame sees when several records cover an address: C08's STACK WIN table theorems "
+                "imported for full StackInfoWin records through an equality-preserving tag map (c07_table_lookup_sound: always a record of the file, same address and other fields, never "
+                "longer than written, containing the address; c07_table_sorted_disjoint; c07_table_isolated_complete), composed with the record preference "
+                "(c07_walk_frame_by_file_record: a frame-data record of the file covering the address evaluated as written, else such an FPO record, else STACK CFI alone), tied to the "
+                "source through C08's translator (c07_table_is_source_table: the table is the one built by insert_win_stack_info / into_rangemap_safe as regenerated from parser.rs), and "
+                "completely characterised for address-sorted files (c07_table_ascending: every record ends where it says or just before the next one starts, nothing dropped, lookup by containment). "
                 "Model tied to the code by exhaustive programs to length 4, extreme size fields, overlapping record sets, through a mock FrameWalker, "
                 "through x86 walk_stack from a context frame and from frame lists, debug and release; an independent Python reference judges "
                 "every implementation answer.",
